@@ -50,6 +50,23 @@ Python → Lean
   are distinct, so the lookups made at their starts are unaffected).  `C02.stored_under_own_id`.
 * a fresh process on the same directory → `Op.fresh`: nothing of this model lives in memory
   (the in-memory function table is `FuncCode.lean`, C12)
+* FUNCTIONS THAT MUTATE THEIR ARGUMENTS.  `self.func(*args, **kwargs)` may work in place on the objects it
+  is given (sort a list, pop from a dict): a function is `f : Args → Result × Args'`, here `Fn.body` (the
+  result, a function of the arguments AS PASSED) and `Fn.effect : Call → Call` (the same `args` / `kwargs`
+  objects as the body LEFT them: `*args` is a tuple and `**kwargs` is unpacked into a new dict, so only the
+  VALUES the objects hold can change — `effect c` names the values after the body ran; `fun c => c` for a
+  function that leaves its arguments alone).  The code computes every key BEFORE the body runs:
+  `_cached_call` (`__call__`, `call_and_shelve`), `call` and `check_call_in_cache` all start with
+  `self._get_args_id(*args, **kwargs)` and hand the resulting `call_id` down (`_call(call_id, args, kwargs)`
+  → `self.func(*args, **kwargs)` → `_after_call(call_id, args, kwargs, …)`): `compute st fn id c` runs the
+  body on `c` and calls `afterCall st id (fn.effect c) output`, which files the output (and the metadata)
+  under the `id` it was GIVEN and computes no key.  What `_after_call` / `_persist_input` do see of the
+  arguments after the body is their `repr` (`metadata["input_args"] = repr of filter_args(func, ignore,
+  args, kwargs)`, evaluated AFTER the body: `persistInput`) — informative only, stored under `call_id`.
+* `Cfg.keyAfterCall` — a VARIANT of the code that is NOT the tree's (seeded change C06-r4-m3): `call`
+  passes `call_id=None` and `_after_call` computes `(func_id, _get_args_id(*args, **kwargs))` when it is
+  about to file the result, i.e. from the arguments as the body left them: `forceLate` / `stepC`.
+  `stepC ⟨ver, false⟩ = step ver` (`stepC_asIs`): the tree's code is `step`.
 
 Assumed here, established elsewhere: the function's source code does not change during the history
 (C12 has the general `_check_previous_func_code`; for a `functools.partial`, whose "source" is its
@@ -129,7 +146,11 @@ structure Fn (R : Type) where
   fid : Nat
   cal : Callable
   ig : List Key
+  /-- the result, as a function of the bound arguments AS PASSED -/
   body : List (Nat × Val) → R
+  /-- the `args` / `kwargs` objects as the body LEFT them (in-place mutation of mutable arguments);
+  `fun c => c` when the function does not touch its arguments -/
+  effect : Call → Call
 
 abbrev Store (R : Type) := List ((Nat × Bs) × R)
 
@@ -186,11 +207,24 @@ def isInCacheAndValid (st : St R) (id : Nat × Bs) (cbOk : Bool) : Option R × S
     | some r => if cbOk then (some r, c.2) else (none, { c.2 with entries := dpop id c.2.entries })
   else (none, c.2)
 
-/-- `_call`: run the function, `dump_item`. -/
+/-- What `_persist_input(duration, call_id, args, kwargs)` writes as `input_args` into the metadata of
+`call_id`: the `repr`s of `filter_args(self.func, self.ignore, args, kwargs)` — of the arguments AS THE
+BODY LEFT THEM (`cAfter`), since it runs after the body.  Informative only: no key is computed from it. -/
+def persistInput (fn : Fn R) (cAfter : Call) : Except Err Dict := argDict fn.cal fn.ig cAfter
+
+/-- `_after_call(call_id, args, kwargs, shelving, output, start_time)`: `dump_item(call_id, output)`, then
+`_persist_input(duration, call_id, args, kwargs)`.  `args` / `kwargs` are by now the objects as the body
+left them (`_cAfter`); the entry is filed under the `call_id` that was handed down — no key is computed
+here. -/
+def afterCall (st : St R) (id : Nat × Bs) (_cAfter : Call) (output : R) : St R :=
+  { st with entries := dset id output st.entries }
+
+/-- `_call(call_id, args, kwargs)`: `output = self.func(*args, **kwargs)` — the body runs on the arguments
+as passed and may mutate them — then `_after_call(call_id, args, kwargs, …, output, …)`. -/
 def compute (st : St R) (fn : Fn R) (id : Nat × Bs) (c : Call) : Except BindErr (R × St R) :=
   match bindOf fn.cal c with
   | .error e => .error e
-  | .ok b => .ok (fn.body b, { st with entries := dset id (fn.body b) st.entries })
+  | .ok b => .ok (fn.body b, afterCall st id (fn.effect c) (fn.body b))
 
 /-- `_cached_call`: the Boolean says whether the function was executed. -/
 def cachedCall (H : Bs → Bs) (E : Env) (st : St R) (fn : Fn R) (c : Call) (cbOk : Bool) :
@@ -266,5 +300,53 @@ def exec (ver : Version) (H : Bs → Bs) (E : Env) : St R → List (Op R) → St
 
 /-- The empty cache directory. -/
 def St.empty : St R := {}
+
+/-! ## The variant `keyAfterCall` (NOT the tree's code: seeded change C06-r4-m3)
+
+`MemorizedFunc.call` no longer hashes the arguments before running the function: `_call(None, args, kwargs)`,
+and `_after_call` starts with `if call_id is None: call_id = (self.func_id, self._get_args_id(*args, **kwargs))`
+— evaluated after the body, on the arguments as the body left them. -/
+
+/-- Which code is modelled: the version (F30) and whether a forced call computes its key after the
+body ran (`keyAfterCall = false` is the tree's code). -/
+structure Cfg where
+  ver : Version
+  keyAfterCall : Bool
+deriving DecidableEq, Repr
+
+/-- `_after_call(None, args, kwargs, …)` of the variant: the key is computed HERE, from `cAfter`. -/
+def afterCallLate (H : Bs → Bs) (E : Env) (st : St R) (fn : Fn R) (cAfter : Call) (output : R) :
+    Except Err (St R) :=
+  match argsId H E fn.cal fn.ig cAfter with
+  | .error e => .error e
+  | .ok k => .ok (afterCall st (fn.fid, k) cAfter output)
+
+/-- `MemorizedFunc.call` of the variant: the code check, the body, then `_after_call(None, …)`.  (A call
+Python rejects raises from the body's binding before `filter_args` is ever asked.) -/
+def forceLate (ver : Version) (H : Bs → Bs) (E : Env) (st : St R) (fn : Fn R) (c : Call) : Out R × St R :=
+  match bindOf fn.cal c with
+  | .error e => (.raisesBind e, beforeForce ver st fn.fid)
+  | .ok b =>
+    match afterCallLate H E (beforeForce ver st fn.fid) fn (fn.effect c) (fn.body b) with
+    | .error e => (.raisesFilter e, beforeForce ver st fn.fid)
+    | .ok st' => (.value (fn.body b) true, st')
+
+def stepC (cfg : Cfg) (H : Bs → Bs) (E : Env) (st : St R) (op : Op R) : Out R × St R :=
+  match cfg.keyAfterCall, op with
+  | true, .force fn c => forceLate cfg.ver H E st fn c
+  | _, op => step cfg.ver H E st op
+
+def runC (cfg : Cfg) (H : Bs → Bs) (E : Env) : St R → List (Op R) → List (Out R)
+  | _, [] => []
+  | st, op :: ops => (stepC cfg H E st op).1 :: runC cfg H E (stepC cfg H E st op).2 ops
+
+def execC (cfg : Cfg) (H : Bs → Bs) (E : Env) : St R → List (Op R) → St R
+  | st, [] => st
+  | st, op :: ops => execC cfg H E (stepC cfg H E st op).2 ops
+
+/-- The tree's code is `step`. -/
+theorem stepC_asIs (ver : Version) (H : Bs → Bs) (E : Env) (st : St R) (op : Op R) :
+    stepC ⟨ver, false⟩ H E st op = step ver H E st op := by
+  cases op <;> rfl
 
 end JoblibModel.MemoryCache
